@@ -311,8 +311,9 @@ CHECKS = {
  "C20": {
   "title": "Locality",
   "harnesses": [doc("VerifH_Locality", {"K": 2, "MENU": 0}, {"K": 3, "MENU": 0}),
-                doc("VerifH_Locality", {"K": 2, "MENU": 1}, {"K": 3, "MENU": 1}, full_schema_lib=True)],
-  "assumptions": DOC_ASSUME + ["fresh declarations (names @a1 / /a1, sharing a string prefix with existing names): SERVER, TAG, TYPE any, parenthesised unused MACRO, GET with a 200 response, and - with the real schema library (MENU 1) - ENUM and an object TYPE; inserted before any top-level line or at the end"],
+                doc("VerifH_Locality", {"K": 2, "MENU": 1}, {"K": 3, "MENU": 1}, full_schema_lib=True),
+                doc("VerifH_LocalityPathShortcut", {}, {}, full_schema_lib=True)],
+  "assumptions": DOC_ASSUME + ["a declaration that only reads a type (VerifH_LocalityPathShortcut): TYPE @t {id} with the property marked optional / not optional / unmarked, with or without a method GET /c/{id} whose Path body is the shortcut @t; the added declaration is GET /a1/{id} with the same shortcut, before or after; the entry of @t is compared with its optional marks, which verifSig does not render", "fresh declarations (names @a1 / /a1, sharing a string prefix with existing names): SERVER, TAG, TYPE any, parenthesised unused MACRO, GET with a 200 response, and - with the real schema library (MENU 1) - ENUM and an object TYPE; inserted before any top-level line or at the end"],
   "not_decided": DOC_NOT + ["coupling through the schema library (every schema receives every type and rule)", "allOf graphs"],
  },
 }
